@@ -819,4 +819,181 @@ theorem condHolds_iff (c : Cond) (r : TxResult) :
     rw [← hk]; exact hkv
 
 
+
+/-! ### range scans over canonical decimals -/
+
+theorem parseInt_dec (m : Nat) (hm : m ≤ maxInt64) : parseInt (dec m) = some (m : Int) := by
+  have hd := dec_isDigit m
+  have hv := digitsVal_dec m
+  cases hl : dec m with
+  | nil => exact absurd hl (dec_ne_nil m)
+  | cons d ds =>
+    rw [hl] at hd hv
+    have hd0 : isDigit d = true := hd d List.mem_cons_self
+    have h45 : d ≠ 45 := by intro e; rw [e] at hd0; simp [isDigit] at hd0
+    have h43 : d ≠ 43 := by intro e; rw [e] at hd0; simp [isDigit] at hd0
+    have hall : (d :: ds).all isDigit = true := List.all_eq_true.mpr hd
+    simp [parseInt, h45, h43, hall, hv, hm]
+
+/-- the numeric test `matchRange` applies to a parsed value -/
+def inR (r : QRange) (m : Nat) : Bool :=
+  (match lowerBoundValue r with | some lo => decide (lo ≤ (m : Int)) | none => true) &&
+  (match upperBoundValue r with | some hi => decide ((m : Int) ≤ hi) | none => true)
+
+/-- every value indexed under `k` is a canonical decimal within int64 -/
+def CanonKey (hist : List TxResult) (k : Str) : Prop :=
+  ∀ r ∈ hist, ∀ kv ∈ attrsAll r, kv.1 = k → ∃ m, m ≤ maxInt64 ∧ kv.2 = dec m
+
+theorem mem_rangeRows {hist : List TxResult} (hc : CleanHist H hist) (r : QRange) (hk : sep ∉ r.key)
+    (hcan : CanonKey hist r.key) (row : Bytes × Val) :
+    row ∈ rangeRows (addBatch H [] hist) r ↔
+      ∃ rr ∈ hist, ∃ kv ∈ attrsAll rr, kv.1 = r.key ∧
+        (∃ m, kv.2 = dec m ∧ inR r m = true) ∧ row = secRow H rr kv := by
+  simp only [rangeRows, List.mem_filter, mem_prefix1 H hc r.key hk]
+  constructor
+  · rintro ⟨⟨rr, hrr, kv, hkv, h1, rfl⟩, htest⟩
+    have cl := attrsAll_clean H hc hrr hkv
+    obtain ⟨m, hm, hv⟩ := hcan rr hrr kv hkv h1
+    simp only [secRow, isTagKey_key _ _ _ _ cl.1 cl.2, extractValue_key _ _ _ _ cl.1 cl.2,
+      Bool.true_and] at htest
+    simp only [hv, parseInt_dec m hm] at htest
+    exact ⟨rr, hrr, kv, hkv, h1, ⟨m, hv, htest⟩, rfl⟩
+  · rintro ⟨rr, hrr, kv, hkv, h1, ⟨m, hv, ht⟩, rfl⟩
+    have cl := attrsAll_clean H hc hrr hkv
+    obtain ⟨m', hm', hv'⟩ := hcan rr hrr kv hkv h1
+    have : m' = m := dec_inj (hv'.symm.trans hv)
+    subst this
+    refine ⟨⟨rr, hrr, kv, hkv, h1, rfl⟩, ?_⟩
+    simp only [secRow, isTagKey_key _ _ _ _ cl.1 cl.2, extractValue_key _ _ _ _ cl.1 cl.2,
+      Bool.true_and]
+    simp only [hv, parseInt_dec m' hm']
+    exact ht
+
+/-- numeric comparison against canonical values never fails and compares the numbers -/
+theorem matchValues_int_canon (op : Op) (n : Nat) (ms : List Nat) (hms : ∀ m ∈ ms, m ≤ maxInt64) :
+    matchValues op (.int n) (ms.map dec) = .ok (ms.any fun m => cmpInt op m n) := by
+  induction ms with
+  | nil => rfl
+  | cons m rest ih =>
+    have ih' := ih (fun x hx => hms x (List.mem_cons_of_mem _ hx))
+    simp only [List.map_cons, List.any_cons]
+    unfold matchValues
+    simp only [matchValue, convInt_dec m (hms m List.mem_cons_self)]
+    cases h : cmpInt op m n with
+    | true => simp
+    | false => simp [ih']
+
+
+theorem canon_list (vs : List Str) (h : ∀ v ∈ vs, ∃ m, m ≤ maxInt64 ∧ v = dec m) :
+    ∃ ms : List Nat, vs = ms.map dec ∧ ∀ m ∈ ms, m ≤ maxInt64 := by
+  induction vs with
+  | nil => exact ⟨[], rfl, by simp⟩
+  | cons v rest ih =>
+    obtain ⟨m, hm, rfl⟩ := h v List.mem_cons_self
+    obtain ⟨ms, e, hms⟩ := ih (fun x hx => h x (List.mem_cons_of_mem _ hx))
+    refine ⟨m :: ms, by simp [e], ?_⟩
+    intro x hx
+    rcases List.mem_cons.mp hx with rfl | hx
+    · exact hm
+    · exact hms x hx
+
+/-- a lower / an upper bound condition on key `k` -/
+def loCond (k : Str) (a : Nat) (inc : Bool) : Cond :=
+  { key := k, op := if inc then .ge else .gt, operand := .int a }
+def hiCond (k : Str) (b : Nat) (inc : Bool) : Cond :=
+  { key := k, op := if inc then .le else .lt, operand := .int b }
+
+/-- the interval `LookForRanges` builds from one lower and one upper bound on the same key -/
+def window (k : Str) (a : Nat) (incA : Bool) (b : Nat) (incB : Bool) : QRange :=
+  { key := k, lower := some a, upper := some b, incLower := incA, incUpper := incB }
+
+theorem lookForRanges_lo_hi (k : Str) (a : Nat) (incA : Bool) (b : Nat) (incB : Bool) :
+    lookForRanges [loCond k a incA, hiCond k b incB] = [window k a incA b incB] ∧
+    lookForRanges [hiCond k b incB, loCond k a incA] = [window k a incA b incB] := by
+  cases incA <;> cases incB <;>
+    simp [lookForRanges, addRange, loCond, hiCond, isRangeOp, operandNat, window]
+
+theorem inR_window (k : Str) (a : Nat) (incA : Bool) (b : Nat) (incB : Bool) (m : Nat)
+    (ha : incA = false → a < maxInt64) :
+    inR (window k a incA b incB) m =
+      (cmpInt (loCond k a incA).op m a && cmpInt (hiCond k b incB).op m b) := by
+  have hne : incA = false → ¬ a = maxInt64 := fun h e => by have := ha h; omega
+  cases incA <;> cases incB <;>
+    simp [inR, window, lowerBoundValue, upperBoundValue, loCond, hiCond, cmpInt, hne]
+  · have h1 : ¬ ((a : Int) = (maxInt64 : Int)) := by have := hne rfl; omega
+    rw [if_neg h1]; congr 1 <;> (apply decide_eq_decide.mpr; omega)
+  · have h1 : ¬ ((a : Int) = (maxInt64 : Int)) := by have := hne rfl; omega
+    rw [if_neg h1]; congr 1; apply decide_eq_decide.mpr; omega
+  · congr 1; apply decide_eq_decide.mpr; omega
+
+
+/-- a query made of range conditions that `LookForRanges` folds into ONE interval is answered by
+that interval's scan alone -/
+theorem search_single_range (db : DB) (q : Query) (W : QRange) (hs : List Bytes)
+    (h1 : conditionsOK q = true) (h2 : lookForHash q = none) (h3 : lookForRanges q = [W])
+    (h4 : lookForHeight q = none) (h5 : q.filter (fun c => !isRangeOp c.op) = [])
+    (hv : valHashes (rangeRows db W) = some hs) :
+    ∃ L, search db q = .hashes L ∧ ∀ x, x ∈ L ↔ x ∈ hs := by
+  obtain ⟨L, e, m⟩ := scanStep_none hs (rangeRows db W) hv
+  refine ⟨L, ?_, m⟩
+  simp only [search, h1, h2, h3, h4, h5, Bool.not_true, Bool.false_eq_true, if_false,
+    List.foldl_cons, List.foldl_nil, e, Option.getD_none]
+
+/-- `Matches` on a two-sided window over a single canonical value -/
+theorem matches_window (k : Str) (a : Nat) (incA : Bool) (b : Nat) (incB : Bool)
+    (ha : a ≤ maxInt64) (hb : b ≤ maxInt64) (hax : incA = false → a < maxInt64)
+    (r : TxResult) (hcan : ∀ v ∈ valuesOf (attrsAll r) k, ∃ m, m ≤ maxInt64 ∧ v = dec m)
+    (hsingle : (valuesOf (attrsAll r) k).length ≤ 1) :
+    («matches» [loCond k a incA, hiCond k b incB] (eventsOf r) = .ok true ↔
+      ∃ m, (k, dec m) ∈ attrsAll r ∧ inR (window k a incA b incB) m = true) ∧
+    («matches» [hiCond k b incB, loCond k a incA] (eventsOf r) = .ok true ↔
+      ∃ m, (k, dec m) ∈ attrsAll r ∧ inR (window k a incA b incB) m = true) := by
+  obtain ⟨ms, hvs, hms⟩ := canon_list _ hcan
+  have hga : ¬ a > maxInt64 := Nat.not_lt.mpr ha
+  have hgb : ¬ b > maxInt64 := Nat.not_lt.mpr hb
+  have hlook := lookup_eventsOf r k
+  have hmem : ∀ m, (k, dec m) ∈ attrsAll r ↔ dec m ∈ valuesOf (attrsAll r) k :=
+    fun m => (mem_valuesOf _ _ _).symm
+  match ms, hvs, hms with
+  | [], hvs, _ =>
+    simp only [List.map_nil] at hvs
+    rw [hvs] at hlook
+    simp only [if_true] at hlook
+    have hno : ¬ ∃ m, (k, dec m) ∈ attrsAll r ∧ inR (window k a incA b incB) m = true := by
+      rintro ⟨m, h, _⟩; rw [hmem, hvs] at h; cases h
+    constructor <;>
+    · simp only [hno, iff_false]
+      cases incA <;> cases incB <;>
+        simp [«matches», eventsOf_nonempty, matchConds, condMatch, loCond, hiCond, hlook, hga, hgb]
+  | [m], hvs, hms =>
+    simp only [List.map_cons, List.map_nil] at hvs
+    rw [hvs] at hlook
+    simp only [List.cons_ne_nil, if_false] at hlook
+    have hm := hms m List.mem_cons_self
+    have hex : (∃ m', (k, dec m') ∈ attrsAll r ∧ inR (window k a incA b incB) m' = true) ↔
+        inR (window k a incA b incB) m = true := by
+      constructor
+      · rintro ⟨m', h, hin⟩
+        rw [hmem, hvs] at h
+        simp only [List.mem_cons, List.not_mem_nil, or_false] at h
+        rw [dec_inj h] at hin; exact hin
+      · intro hin; exact ⟨m, by rw [hmem, hvs]; simp, hin⟩
+    have hlo : ∀ op, matchValues op (.int a) [dec m] = .ok (cmpInt op m a) := by
+      intro op
+      have := matchValues_int_canon op a [m] (by simpa using hm)
+      simpa using this
+    have hhi : ∀ op, matchValues op (.int b) [dec m] = .ok (cmpInt op m b) := by
+      intro op
+      have := matchValues_int_canon op b [m] (by simpa using hm)
+      simpa using this
+    rw [hex, inR_window k a incA b incB m hax]
+    constructor <;>
+    · cases incA <;> cases incB <;>
+        simp only [«matches», eventsOf_nonempty, matchConds, condMatch, loCond, hiCond, hlook, hga,
+          hgb, hlo, hhi, Bool.false_eq_true, if_false, if_true] <;>
+        (cases cmpInt _ m a <;> cases cmpInt _ m b <;> simp)
+  | _ :: _ :: _, hvs, _ =>
+    rw [hvs] at hsingle
+    simp at hsingle
+
 end Tmv.Index
